@@ -373,19 +373,19 @@ func visitInstr(fr *frame, instr ssa.Instruction) continuation {
 		switch x := x.(type) {
 		case array:
 			if si, ok := idx.(*sym); ok {
-				fr.env[instr] = symIndexAddr([]value(x), si).(loader).loadElem()
+				fr.env[instr] = loadIdx(symIndexAddr([]value(x), si))
 			} else {
 				fr.env[instr] = x[asInt64(idx)]
 			}
 		case sstring:
 			if si, ok := idx.(*sym); ok {
-				fr.env[instr] = symIndexAddr([]value(x), si).(loader).loadElem()
+				fr.env[instr] = loadIdx(symIndexAddr([]value(x), si))
 			} else {
 				fr.env[instr] = x[asInt64(idx)]
 			}
 		case string:
 			if si, ok := idx.(*sym); ok {
-				fr.env[instr] = symIndexAddr([]value(toSString(x)), si).(loader).loadElem()
+				fr.env[instr] = loadIdx(symIndexAddr([]value(toSString(x)), si))
 			} else {
 				fr.env[instr] = x[asInt64(idx)]
 			}
@@ -566,6 +566,11 @@ func callSSA(i *interpreter, caller *frame, callpos token.Pos, fn *ssa.Function,
 		}
 		if fn.Blocks == nil {
 			unsupported("no code for function: %s", fn.String())
+		}
+	}
+	if len(args) == 1 {
+		if r, ok := tryTabulate(i, fn, args); ok {
+			return r
 		}
 	}
 	X.depth++
